@@ -21,6 +21,7 @@ class Audit:
         self.tally = collections.Counter()     # informational events
         self.installed = False
         self.pkg_dir = None
+        self.strict = False        # set after the warm-up
 
     def install(self, pkg_dir):
         self.pkg_dir = os.path.realpath(pkg_dir)
@@ -62,6 +63,11 @@ class Audit:
             if mine:
                 self.flagged.append((event, repr(args)[:120]))
                 raise Veto(f'sqv: vetoed {event}')
+            if self.strict:
+                # a warmed-up process: every library has loaded what it needs, so an import / exec / compile that appears only now
+                # was caused by the program's data (e.g. a codec name handed to str.encode)
+                self.flagged.append((event + ':late', repr(args)[:120]))
+                raise Veto(f'sqv: vetoed late {event}')
             self.tally['library:' + event] += 1
             return
         if event.startswith(FLAG_PREFIX):
